@@ -200,6 +200,34 @@ if not (st == "ok" and got is None):
     elif got != want:
         rep.fail("member_of::both-ids-reused-before-sweep", f"person.member_of.append(company) with both objects at addresses of dead, related, unswept instances: {got}; on a fresh graph: {want}",
                  {"scenario": "dense-dead-pair"})
+# ---- an edge between a DEAD (collected, not yet swept) instance and a live one: asserting a relation on the live one
+def dead_neighbour_scenario(direction, sweep):
+    fresh_graph()
+    a, b, c = Company(name="a"), Company(name="b"), Company(name="c")
+    if direction == "dead-source":
+        a.sub_organization_of.append(b)       # a -> b, then a dies
+    else:
+        p = Person(name="p")
+        p.works_for = b                        # p -> b (and b.members <- p), then p dies
+        del p
+    del a
+    gc.collect()
+    if sweep:
+        SymbolGraph().remove_dead_instances()
+    b.sub_organization_of.append(c)
+    objs = {"b": b, "c": c}
+    return observe(objs)["fields"], observe(objs)["relations"]
+
+
+for direction in ("dead-source", "dead-person"):
+    st0, want = guarded(lambda: dead_neighbour_scenario(direction, True))
+    st, got = guarded(lambda: dead_neighbour_scenario(direction, False))
+    rep.case(("dead-neighbour", direction), sample={"scenario": "a related instance died and is not swept yet", "direction": direction})
+    if st == "exc":
+        rep.fail(f"sub_org::dead-unswept-neighbour::raised::{type(got).__name__}", f"{direction}: a dead, unswept neighbour of b; b.sub_organization_of.append(c) raised {type(got).__name__}: {got}",
+                 {"scenario": "dead-neighbour", "direction": direction})
+    elif st0 == "ok" and got != want:
+        rep.fail("sub_org::dead-unswept-neighbour", f"{direction}: {got}; after a sweep: {want}", {"scenario": "dead-neighbour", "direction": direction})
 # ---- a sweep happens while a LIVE, related instance is falsy (its class has __len__): nothing of it may be swept
 from dataclasses import dataclass, field
 from typing_extensions import List
